@@ -137,3 +137,12 @@ FAMILIES.append(Family("registration", gen_registration, _c12.impl_histories, _c
                        _c12.oracle_histories, _c12.nontrivial_histories, imports=["Model.Core", "Model.Prog", "Model.Handover"],
                        project=_c12.project_histories, shrink=_c12.shrink_histories, describe=_c12.describe_histories,
                        shard=24, coq_shard=24, case_timeout=30))
+
+
+def gen_raw_registration(rng, tier):
+    return _c12.gen_raw_histories(rng, tier, equal_every=2)
+
+
+# Logger.write(dict) from one re-used dictionary, also before the first registration (statement only, no model evaluation)
+FAMILIES.append(Family("raw_registration", gen_raw_registration, _c12.impl_histories, None, None, _c12.oracle_histories,
+                       _c12.nontrivial_histories, describe=_c12.describe_histories, shard=24, case_timeout=30))
